@@ -128,7 +128,7 @@ class Driver:
         if not reqs:
             return []
         inp = "\n".join(json.dumps(r, separators=(",", ":")) for r in reqs) + "\n"
-        r = subprocess.run([str(DRIVER)], input=inp, capture_output=True, text=True, timeout=1200)
+        r = subprocess.run([str(DRIVER_OVERRIDE or DRIVER)], input=inp, capture_output=True, text=True, timeout=1200)
         if r.returncode != 0:
             raise RuntimeError(f"driver failed rc={r.returncode}: {r.stderr[-500:]}")
         out = [json.loads(l) for l in r.stdout.splitlines() if l.strip()]
@@ -248,14 +248,17 @@ def write_replay(ctx: Ctx, name: str, obj: dict) -> str:
     return str(p.relative_to(ROOT))
 
 
-def prove(ctx: Ctx, pid: str, extra_targets: list[str] | None = None, gen_info: dict | None = None):
+def prove(ctx: Ctx, pid: str, extra_targets: list[str] | None = None, gen_info: dict | None = None, uses: list[str] | None = None):
     """Step 1+2 of every check: regenerate (T1), build this property's Lean targets, audit axioms."""
     with build_lock():
         gen = gen_info if gen_info is not None else regenerate()
         ctx.notes["translator"] = {k: gen.get(k) for k in ("functions", "refused", "changed", "returncode")}
-        if gen.get("returncode", 1) != 0 or gen.get("refused"):
-            for fn in gen.get("refused") or ["py2lean"]:
-                ctx.broke(f"T1:{fn}", f"translator refused or failed: {gen.get('stderr', '')[-300:]}")
+        if gen.get("returncode", 1) != 0:
+            ctx.broke("T1:py2lean", f"translator failed: {gen.get('stderr', '')[-300:]}")
+        for fn in gen.get("refused") or []:
+            # `uses`: names of the generated definitions/tables this property depends on (None = all)
+            if uses is None or any(fn.startswith(u + ":") or fn.startswith(f"table {u}:") for u in uses):
+                ctx.broke(f"T1:{fn.split(':')[0]}", f"translator refused: {fn}")
         ok, out = lake_build([f"SparseV.Props.{pid}", "svdriver"] + (extra_targets or []))
         ctx.notes["lake_build_ok"] = ok
         if not ok:
